@@ -6,13 +6,13 @@ import (
 
 	"github.com/nspcc-dev/neo-go/pkg/core/transaction"
 	"github.com/nspcc-dev/neo-go/pkg/crypto/hash"
-	"github.com/nspcc-dev/neo-go/pkg/io"
 	"github.com/nspcc-dev/neo-go/pkg/smartcontract/callflag"
 	"github.com/nspcc-dev/neo-go/pkg/smartcontract/trigger"
 	"github.com/nspcc-dev/neo-go/pkg/util"
-	"github.com/nspcc-dev/neo-go/pkg/vm/emit"
+	"github.com/nspcc-dev/neo-go/pkg/vm/opcode"
 	"github.com/nspcc-dev/neo-go/pkg/vm/stackitem"
 	"pgregory.net/rapid"
+	"verifharness/asm"
 	"verifharness/vt"
 )
 
@@ -41,7 +41,34 @@ var (
 	}()
 )
 
-func genLeaf(t *rapid.T) Cond {
+// Leaf biases of the two storylines.
+const (
+	biasNone = iota
+	biasEntry
+	biasGroup // biasGroup + 4*(g+1): group g is the one whose membership the execution changes
+)
+
+func biasKind(b int) int { return b % 4 }
+
+// focusGroup draws the group a biased leaf / scope names: mostly the one the execution changes.
+func focusGroup(t *rapid.T, bias int) int {
+	if f := bias/4 - 1; f >= 0 && rapid.IntRange(0, 3).Draw(t, "focus") != 0 {
+		return f
+	}
+	return rapid.IntRange(0, NGroups-1).Draw(t, "g")
+}
+
+func genLeaf(t *rapid.T, bias int) Cond {
+	if bias != biasNone && rapid.Bool().Draw(t, "biased") {
+		switch {
+		case biasKind(bias) == biasEntry:
+			return Cond{T: "entry"}
+		case rapid.Bool().Draw(t, "calling"):
+			return Cond{T: "bygroup", G: focusGroup(t, bias)}
+		default:
+			return Cond{T: "group", G: focusGroup(t, bias)}
+		}
+	}
 	switch rapid.IntRange(0, 6).Draw(t, "leaf") {
 	case 0:
 		return Cond{T: "bool", B: rapid.Bool().Draw(t, "b")}
@@ -61,29 +88,29 @@ func genLeaf(t *rapid.T) Cond {
 }
 
 // genCond draws a condition tree with at most `levels` levels (transaction.MaxConditionNesting = 3 at the root).
-func genCond(t *rapid.T, levels int) Cond {
+func genCond(t *rapid.T, levels int, bias int) Cond {
 	if levels <= 1 {
-		return genLeaf(t)
+		return genLeaf(t, bias)
 	}
 	switch rapid.IntRange(0, 9).Draw(t, "op") {
 	case 0, 1, 2:
-		return Cond{T: "not", Sub: []Cond{genCond(t, levels-1)}}
+		return Cond{T: "not", Sub: []Cond{genCond(t, levels-1, bias)}}
 	case 3, 4:
 		n := rapid.IntRange(1, 3).Draw(t, "n")
 		c := Cond{T: "and"}
 		for i := 0; i < n; i++ {
-			c.Sub = append(c.Sub, genCond(t, levels-1))
+			c.Sub = append(c.Sub, genCond(t, levels-1, bias))
 		}
 		return c
 	case 5, 6:
 		n := rapid.IntRange(1, 3).Draw(t, "n")
 		c := Cond{T: "or"}
 		for i := 0; i < n; i++ {
-			c.Sub = append(c.Sub, genCond(t, levels-1))
+			c.Sub = append(c.Sub, genCond(t, levels-1, bias))
 		}
 		return c
 	}
-	return genLeaf(t)
+	return genLeaf(t, bias)
 }
 
 func genSubset(t *rapid.T, pool []int, label string) []int {
@@ -97,18 +124,31 @@ func genSubset(t *rapid.T, pool []int, label string) []int {
 	return out
 }
 
-func genSigner(t *rapid.T, acct int) Signer {
+func genSigner(t *rapid.T, acct int, bias int) Signer {
 	s := Signer{Acct: acct, Scope: rapid.SampledFrom(scopePalette).Draw(t, "scope")}
+	switch biasKind(bias) {
+	case biasEntry:
+		s.Scope = rapid.SampledFrom([]int{scCalledByEntry, scCalledByEntry, scRules, scRules, scCalledByEntry | scContracts, scCalledByEntry | scGroups,
+			scCalledByEntry | scRules}).Draw(t, "escope")
+	case biasGroup:
+		s.Scope = rapid.SampledFrom([]int{scGroups, scGroups, scRules, scRules, scGroups | scContracts, scGroups | scRules}).Draw(t, "gscope")
+	}
 	if s.Scope&scContracts != 0 {
 		s.Contracts = genSubset(t, allowedRefs, "contracts")
 	}
 	if s.Scope&scGroups != 0 {
 		s.Groups = genSubset(t, []int{G1, G2, GOther}, "groups")
+		if biasKind(bias) == biasGroup && rapid.Bool().Draw(t, "onlyfocus") {
+			s.Groups = []int{focusGroup(t, bias)}
+		}
 	}
 	if s.Scope&scRules != 0 {
 		n := rapid.SampledFrom([]int{0, 1, 1, 1, 2, 2, 3}).Draw(t, "nrules")
+		if bias != biasNone && n == 0 {
+			n = 1
+		}
 		for i := 0; i < n; i++ {
-			s.Rules = append(s.Rules, Rule{Allow: rapid.IntRange(0, 2).Draw(t, "allow") != 0, Cond: genCond(t, transaction.MaxConditionNesting)})
+			s.Rules = append(s.Rules, Rule{Allow: rapid.IntRange(0, 2).Draw(t, "allow") != 0, Cond: genCond(t, transaction.MaxConditionNesting, bias)})
 		}
 	}
 	return s
@@ -120,8 +160,11 @@ func posRef(hops []Hop, i int) int {
 		return RefEntry
 	}
 	h := hops[i-1]
-	if h.Kind == HopDyn {
+	switch h.Kind {
+	case HopDyn:
 		return RefDyn0 + h.Target
+	case HopSelf:
+		return RefEntry
 	}
 	return h.Target
 }
@@ -134,11 +177,14 @@ func fixFlags(hops []Hop, leaf int) {
 		req = int(callflag.All)
 	}
 	for i := len(hops) - 1; i >= 0; i-- {
+		if hops[i].Mut != nil { // the frame reached by this hop calls ContractManagement
+			req = int(callflag.All)
+		}
 		switch hops[i].Kind {
 		case HopCall:
 			hops[i].Flags |= req
 			req |= int(callflag.ReadStates | callflag.AllowCall)
-		case HopDyn:
+		case HopDyn, HopSelf:
 			hops[i].Flags |= req
 			req |= int(callflag.AllowCall)
 		case HopNative:
@@ -148,36 +194,136 @@ func fixFlags(hops []Hop, leaf int) {
 	}
 }
 
-func genChain(t *rapid.T, maxDepth int) ([]Hop, int) {
-	depth := rapid.SampledFrom([]int{0, 1, 1, 2, 2, 2, 3, 3, 3}).Draw(t, "depth")
-	if depth > maxDepth {
-		depth = maxDepth
+func genMut(t *rapid.T) *Mut {
+	if rapid.IntRange(0, 3).Draw(t, "destroy") == 0 {
+		return &Mut{Op: MutDestroy}
 	}
-	var hops []Hop
-	dyn := false
-	for i := 0; i < depth; i++ {
-		k := rapid.SampledFrom([]int{HopCall, HopCall, HopDyn, HopNative}).Draw(t, "kind")
-		if k == HopNative && dyn { // a dynamic script is read-only: nothing below it can run GAS.transfer
-			k = HopCall
-		}
-		h := Hop{Kind: k, Flags: rapid.SampledFrom(flagPalette).Draw(t, "flags")}
-		if k == HopDyn {
-			dyn = true
-			h.Target = rapid.IntRange(0, 1).Draw(t, "dynv")
-		} else {
-			h.Target = rapid.IntRange(0, 3).Draw(t, "target")
-		}
-		hops = append(hops, h)
-	}
-	leaf := LeafSyscall
-	if !dyn && rapid.IntRange(0, 5).Draw(t, "leaf") == 0 {
-		leaf = LeafGas
-	}
-	fixFlags(hops, leaf)
-	return hops, leaf
+	return &Mut{Op: MutUpdate, Groups: genSubset(t, []int{G1, G2, GOther}, "newgroups")}
 }
 
-func genAcct(t *rapid.T, signers []Signer, hops []Hop, leaf int) Acct {
+// genChain draws the call chain. Besides the general shape there are two storylines (bias != biasNone):
+//
+//	biasEntry: a frame running the entry script's own bytes (LoadScript of the transaction script) calls a contract, which
+//	           is then NOT called by entry although its calling script hash equals the entry script hash; or a contract
+//	           called by entry is re-entered through the NEP-17 payment callback;
+//	biasGroup: a contract changes its own manifest groups (update) or destroys itself and then it, or a contract it
+//	           calls, checks a witness.
+func genChain(t *rapid.T, maxDepth int) ([]Hop, int, int) {
+	pal := func() int { return rapid.SampledFrom(flagPalette).Draw(t, "flags") }
+	target := func() int { return rapid.IntRange(0, 3).Draw(t, "target") }
+	story := biasNone
+	if maxDepth >= 2 {
+		story = rapid.SampledFrom([]int{biasNone, biasNone, biasNone, biasNone, biasNone, biasEntry, biasGroup, biasGroup}).Draw(t, "story")
+	}
+	var hops []Hop
+	leaf := LeafSyscall
+	switch story {
+	case biasEntry:
+		if rapid.IntRange(0, 3).Draw(t, "reenter") == 0 {
+			x := target()
+			hops = []Hop{{Kind: HopCall, Target: x, Flags: 15}, {Kind: HopNative, Target: x, Flags: 15}}
+			break
+		}
+		if maxDepth >= 3 && rapid.IntRange(0, 2).Draw(t, "prefix") == 0 {
+			hops = append(hops, Hop{Kind: rapid.SampledFrom([]int{HopCall, HopNative, HopDyn}).Draw(t, "pk"), Flags: pal()})
+			if hops[0].Kind == HopDyn {
+				hops[0].Target = rapid.IntRange(0, 1).Draw(t, "dynv")
+			} else {
+				hops[0].Target = target()
+			}
+		}
+		hops = append(hops, Hop{Kind: HopSelf, Flags: pal()}, Hop{Kind: HopCall, Target: target(), Flags: pal()})
+		if len(hops) < maxDepth && rapid.IntRange(0, 3).Draw(t, "suffix") == 0 {
+			hops = append(hops, Hop{Kind: HopCall, Target: target(), Flags: pal()})
+		}
+	case biasGroup:
+		if maxDepth >= 3 && rapid.IntRange(0, 2).Draw(t, "prefix") == 0 {
+			hops = append(hops, Hop{Kind: rapid.SampledFrom([]int{HopCall, HopNative}).Draw(t, "pk"), Target: target(), Flags: 15})
+		}
+		m := Hop{Kind: rapid.SampledFrom([]int{HopCall, HopCall, HopNative}).Draw(t, "mk"), Target: target(), Flags: 15, Mut: genMut(t)}
+		hops = append(hops, m)
+		if rapid.Bool().Draw(t, "callee") { // the check happens in a callee (CalledByGroup sees the changed caller)
+			k := rapid.SampledFrom([]int{HopCall, HopCall, HopDyn}).Draw(t, "ck")
+			h := Hop{Kind: k, Flags: pal()}
+			if k == HopDyn {
+				h.Target = rapid.IntRange(0, 1).Draw(t, "dynv")
+			} else {
+				h.Target = target()
+				if m.Mut.Op == MutDestroy && h.Target == m.Target {
+					h.Target = (h.Target + 1) % 4
+				}
+			}
+			hops = append(hops, h)
+		}
+	default:
+		depth := rapid.SampledFrom([]int{0, 1, 1, 2, 2, 2, 3, 3, 3}).Draw(t, "depth")
+		if depth > maxDepth {
+			depth = maxDepth
+		}
+		ro := false // below a dynamic script everything is read-only
+		destroyed := map[int]bool{}
+		for i := 0; i < depth; i++ {
+			k := rapid.SampledFrom([]int{HopCall, HopCall, HopCall, HopDyn, HopNative, HopNative, HopSelf}).Draw(t, "kind")
+			if k == HopNative && (ro || len(destroyed) > 0) {
+				k = HopCall
+			}
+			h := Hop{Kind: k, Flags: pal()}
+			switch k {
+			case HopDyn:
+				ro = true
+				h.Target = rapid.IntRange(0, 1).Draw(t, "dynv")
+			case HopSelf:
+				ro = true
+			default:
+				h.Target = target()
+				for destroyed[h.Target] {
+					h.Target = (h.Target + 1) % 4
+				}
+				if !ro && rapid.IntRange(0, 9).Draw(t, "mut") == 0 {
+					h.Mut = genMut(t)
+					if h.Mut.Op == MutDestroy {
+						if len(destroyed) == 3 {
+							h.Mut = nil
+						} else {
+							destroyed[h.Target] = true
+						}
+					}
+				}
+			}
+			hops = append(hops, h)
+		}
+		if !ro && len(destroyed) == 0 && rapid.IntRange(0, 5).Draw(t, "leaf") == 0 {
+			leaf = LeafGas
+		}
+	}
+	fixFlags(hops, leaf)
+	if story == biasGroup {
+		// the group whose membership the mutating contract changes (any one of them; none: the update changes nothing)
+		base := map[int]int{RefA: 1 << G1, RefB: 1<<G1 | 1<<G2, RefC: 1 << G2, RefD: 0}
+		for _, h := range hops {
+			if h.Mut == nil {
+				continue
+			}
+			now := 0
+			for _, g := range h.Mut.Groups {
+				now |= 1 << g
+			}
+			var changed []int
+			for g := 0; g < NGroups; g++ {
+				if (now^base[h.Target])&(1<<g) != 0 {
+					changed = append(changed, g)
+				}
+			}
+			if len(changed) > 0 {
+				story += 4 * (1 + rapid.SampledFrom(changed).Draw(t, "changedgroup"))
+				break
+			}
+		}
+	}
+	return hops, leaf, story
+}
+
+func genAcct(t *rapid.T, signers []Signer, hops []Hop, leaf int, story int) Acct {
 	n := len(hops)
 	// symbolic current / calling scripts of the context that performs the check
 	cur, calling := posRef(hops, n), RefZero
@@ -191,8 +337,14 @@ func genAcct(t *rapid.T, signers []Signer, hops []Hop, leaf int) Acct {
 		cur, calling = RefGAS, posRef(hops, n)
 	}
 	var a Acct
-	switch rapid.SampledFrom([]string{"signer", "signer", "signer", "signer", "signer", "pub", "pub", "calling", "calling", "calling",
-		"current", "grand", "other", "other"}).Draw(t, "acctkind") {
+	kinds := []string{"signer", "signer", "signer", "signer", "signer", "pub", "pub", "calling", "calling", "calling",
+		"current", "grand", "other", "other"}
+	if story != biasNone {
+		kinds = []string{"first", "first", "first", "first", "first", "first", "first", "signer", "pub", "calling", "current", "other"}
+	}
+	switch rapid.SampledFrom(kinds).Draw(t, "acctkind") {
+	case "first":
+		a.Ref = signers[0].Acct
 	case "signer":
 		a.Ref = signers[rapid.IntRange(0, len(signers)-1).Draw(t, "which")].Acct
 	case "pub":
@@ -221,17 +373,18 @@ func genAcct(t *rapid.T, signers []Signer, hops []Hop, leaf int) Acct {
 
 func genCellBounded(t *rapid.T, maxDepth int) Case {
 	var c Case
-	c.Hops, c.Leaf = genChain(t, maxDepth)
+	var story int
+	c.Hops, c.Leaf, story = genChain(t, maxDepth)
 	first := rapid.SampledFrom(signerRefs).Draw(t, "s0")
-	c.Signers = append(c.Signers, genSigner(t, first))
+	c.Signers = append(c.Signers, genSigner(t, first, story))
 	if rapid.IntRange(0, 2).Draw(t, "two") == 0 {
 		second := rapid.SampledFrom(signerRefs).Draw(t, "s1")
 		if second == first { // signer accounts of a transaction are distinct
 			second = RefK2
 		}
-		c.Signers = append(c.Signers, genSigner(t, second))
+		c.Signers = append(c.Signers, genSigner(t, second, biasNone))
 	}
-	c.Acct = genAcct(t, c.Signers, c.Hops, c.Leaf)
+	c.Acct = genAcct(t, c.Signers, c.Hops, c.Leaf, story)
 	return c
 }
 
@@ -280,6 +433,11 @@ func validCond(c Cond) error {
 }
 
 func validCase(c Case) error {
+	for i, h := range c.Hops {
+		if h.Kind < HopCall || h.Kind > HopSelf {
+			return fmt.Errorf("malformed case: hop %d has kind %d", i, h.Kind)
+		}
+	}
 	if len(c.Signers) == 0 || len(c.Hops) > 3 {
 		return fmt.Errorf("malformed case: %d signers, %d hops", len(c.Signers), len(c.Hops))
 	}
@@ -320,36 +478,50 @@ func validCase(c Case) error {
 	return nil
 }
 
-// entryScript assembles "push path, push acct, body".
+// entryScript assembles "if the stack is empty { push path, push acct }, body".
 func (w *world) entryScript(c Case) []byte {
 	path := []any{}
 	for _, h := range c.Hops {
 		switch h.Kind {
-		case HopCall, HopNative:
-			path = append(path, []any{h.Kind, w.contracts[h.Target].BytesBE(), h.Flags})
+		case HopCall:
+			path = append(path, []any{skCall, w.contracts[h.Target].BytesBE(), h.Flags})
+		case HopNative:
+			path = append(path, []any{skNative, w.contracts[h.Target].BytesBE(), h.Flags})
 		case HopDyn:
-			path = append(path, []any{h.Kind, w.dyn[h.Target], h.Flags})
+			path = append(path, []any{skDyn, w.dyn[h.Target], h.Flags})
+		case HopSelf:
+			path = append(path, []any{skSelf, 0, h.Flags})
+		}
+		if h.Mut != nil {
+			if h.Mut.Op == MutDestroy {
+				path = append(path, []any{skMutate, 1, 0})
+			} else {
+				var m int
+				for _, g := range h.Mut.Groups {
+					m |= 1 << g
+				}
+				path = append(path, []any{skMutate, 0, w.manifests[h.Target][m]})
+			}
 		}
 	}
 	if c.Leaf == LeafGas {
-		path = append(path, []any{hopGasLeaf, w.keys[2].Hash.BytesBE(), 0})
+		path = append(path, []any{skGasLeaf, w.keys[2].Hash.BytesBE(), 0})
 	}
-	bw := io.NewBufBinWriter()
-	emit.Any(bw.BinWriter, path)
+	b := asm.New()
+	b.Op(opcode.DEPTH).Jmp(opcode.JMPIFL, "run") // loaded as a dynamic script: the arguments are on the stack already
+	b.Any(path)
 	switch {
 	case c.Acct.Ref == RefEntry:
 		// The script cannot contain its own hash: it asks for it. The oracle uses the hash computed outside the VM.
-		emit.Syscall(bw.BinWriter, "System.Runtime.GetExecutingScriptHash")
+		b.Syscall("System.Runtime.GetExecutingScriptHash")
 	case c.Acct.Pub:
-		emit.Bytes(bw.BinWriter, w.keys[c.Acct.Ref-RefK0].Pub.Bytes())
+		b.Bytes(w.keys[c.Acct.Ref-RefK0].Pub.Bytes())
 	default:
-		emit.Bytes(bw.BinWriter, w.resolve(c.Acct.Ref, util.Uint160{}).BytesBE())
+		b.Bytes(w.resolve(c.Acct.Ref, util.Uint160{}).BytesBE())
 	}
-	bw.WriteBytes(w.body)
-	if bw.Err != nil {
-		panic(bw.Err)
-	}
-	return bw.Bytes()
+	b.Label("run")
+	b.Raw(w.body)
+	return b.Script()
 }
 
 // outcome of the real execution.
@@ -399,6 +571,21 @@ func (w *world) execute(script []byte, signers []transaction.Signer, viaNotifica
 		return outcome{}, fmt.Errorf("the witness check produced a %s, not a Boolean", item.Type())
 	}
 	return outcome{v: yes(bool(b))}, nil
+}
+
+// condUses reports whether a tree has a CalledByEntry leaf (and whether one is under a Not) and a group leaf.
+func condUses(c Cond, underNot bool) (entry, entryUnderNot, group bool) {
+	switch c.T {
+	case "entry":
+		return true, underNot, false
+	case "group", "bygroup":
+		return false, false, true
+	}
+	for _, s := range c.Sub {
+		e, n, g := condUses(s, underNot || c.T == "not")
+		entry, entryUnderNot, group = entry || e, entryUnderNot || n, group || g
+	}
+	return
 }
 
 func scopeLabel(s int) string {
@@ -462,7 +649,7 @@ func evalCell(c Case, o *cls, honourKnown bool) error {
 	}
 	script := w.entryScript(c)
 	entry := hash.Hash160(script)
-	chain, leaf, err := w.positions(c, entry)
+	chain, leaf, groups, err := w.positions(c, entry)
 	if err != nil {
 		return fmt.Errorf("malformed case: %v", err)
 	}
@@ -484,19 +671,28 @@ func evalCell(c Case, o *cls, honourKnown bool) error {
 		}
 	}
 
-	want, y := allowed(c.Signers, acct, w.envOf(leaf, entry))
+	want, y := allowed(c.Signers, acct, w.envOf(leaf, entry, groups))
 
-	viaNote := false
+	viaNote, mutated := false, false
 	kinds := ""
 	for _, h := range c.Hops {
 		if h.Kind == HopNative {
 			viaNote = true
 		}
-		kinds += string("cdn"[h.Kind])
+		kinds += string("cdns"[h.Kind])
+		if h.Mut != nil {
+			mutated = true
+			kinds += map[string]string{MutUpdate: "U", MutDestroy: "X"}[h.Mut.Op]
+		}
 	}
 	got, err := w.execute(script, signers, viaNote)
 	if err != nil {
 		return err
+	}
+	if mutated { // the update / destruction happened in the private store of the test execution only
+		if err := w.intact(); err != nil {
+			return err
+		}
 	}
 	o.Units(1)
 
@@ -555,6 +751,46 @@ func evalCell(c Case, o *cls, honourKnown bool) error {
 	}
 	o.Label("outcome/" + want.String())
 	o.Label("by/" + y.by)
+	if consulted != nil && y.by != "own-call" {
+		usesEntry, entryUnderNot, usesGroup := consulted.Scope&scCalledByEntry != 0, false, consulted.Scope&scGroups != 0
+		if consulted.Scope&scRules != 0 {
+			for _, r := range consulted.Rules {
+				e, n, g := condUses(r.Cond, false)
+				usesEntry, entryUnderNot, usesGroup = usesEntry || e, entryUnderNot || n, usesGroup || g
+			}
+		}
+		// class 1: the checking frame is not called by entry, yet its calling script hash IS the entry script hash
+		// (frame of the entry script's own bytes in between), or it is a contract re-entered through the payment
+		// callback while an outer frame of the same contract is called by entry; the signer's scope asks for the entry relation
+		reentered := false
+		for i, p := range chain {
+			if i > 0 && i < len(chain)-1 && p.cur == leaf.cur && p.level == 1 && leaf.level > 1 {
+				reentered = true
+			}
+		}
+		if usesEntry && leaf.level >= 2 && ((leaf.hasCalling && leaf.calling == entry) || reentered) {
+			o.Label("class/entry-hash-but-not-by-entry")
+			flipped := w.envOf(leaf, entry, groups)
+			flipped.byEntry = true
+			if v, _ := allowed(c.Signers, acct, flipped); v != want {
+				o.Label("class/entry-hash-but-not-by-entry/decisive") // an implementation taking the frame for "called by entry" answers differently
+			}
+			if entryUnderNot {
+				o.Label("class/entry-hash-but-not-by-entry/under-not")
+			}
+		}
+		// class 2: the groups of the current or calling contract of the checking frame were changed by this execution
+		// and the signer's scope asks for group membership
+		if usesGroup && (groups[leaf.cur] != w.groupsOf[leaf.cur] || (leaf.hasCalling && groups[leaf.calling] != w.groupsOf[leaf.calling])) {
+			o.Label("class/groups-changed-in-execution")
+			if v, _ := allowed(c.Signers, acct, w.envOf(leaf, entry, w.groupsOf)); v != want {
+				o.Label("class/groups-changed-in-execution/decisive") // the groups from before the execution give a different answer
+			}
+		}
+	}
+	if mutated {
+		o.Label("chain/self-update-or-destroy")
+	}
 	if lenient {
 		o.Label("lenient/empty-groups-no-ReadStates")
 	}
@@ -566,9 +802,9 @@ func evalCell(c Case, o *cls, honourKnown bool) error {
 	if c.Leaf == LeafGas {
 		positions = append(positions, leaf)
 	}
-	first, _ := allowed(c.Signers, acct, w.envOf(positions[0], entry))
+	first, _ := allowed(c.Signers, acct, w.envOf(positions[0], entry, groups))
 	for _, p := range positions[1:] {
-		if v, _ := allowed(c.Signers, acct, w.envOf(p, entry)); v != first {
+		if v, _ := allowed(c.Signers, acct, w.envOf(p, entry, groups)); v != first {
 			nt = true
 			o.Label("nt/position-dependent")
 			break
